@@ -66,6 +66,8 @@ def op_lit(op):
         return "(OProbe %s %s)" % (cN(op[1]), op[2])
     if t == "probe_link":
         return "(OProbeLink %s %s)" % (cN(op[1]), op[2])
+    if t == "copy":
+        return "(OCopy %s %s %s %s %s)" % (cN(op[1]), cN(op[2]), opt_tok(op[3]), cbool(op[4]), cbool(op[5]))
     if t == "set_auto":
         return "(OSetAuto %s)" % cbool(op[1])
     if t == "reopen":
